@@ -26,13 +26,13 @@ func ints64(v []int) []int64 {
 }
 
 type convCfg struct {
-	dt             ref.DT
-	x, w           []int
-	bias, kshape   bool
-	a              ref.ConvAttrs
-	route          string
-	init           []bool
-	extra          []string
+	dt           ref.DT
+	x, w         []int
+	bias, kshape bool
+	a            ref.ConvAttrs
+	route        string
+	init         []bool
+	extra        []string
 }
 
 func convJob(cf convCfg) opJob {
